@@ -3,6 +3,7 @@ import Woodpile.Driver.ReadN
 import Woodpile.Driver.Iovec
 import Woodpile.Driver.CodecW
 import Woodpile.Driver.RoughTlv
+import Woodpile.Driver.Hcobs
 
 open Woodpile.Driver
 
@@ -13,6 +14,8 @@ def families : List (String × Family) :=
   ++ [("codecw", CodecWFam.family)]
   ++ [("tlv", RoughTlvFam.family)]
   ++ [("tlvview", RoughTlvFam.viewFamily)]
+  ++ [("hcobs_enc", HcobsFam.encFamily)]
+  ++ [("hcobs_dec", HcobsFam.decFamily)]
 
 def main (args : List String) : IO UInt32 := do
   match args with
